@@ -4,6 +4,7 @@ package props
 // ExampleClaims: embed a base claims type and use the embedding-aware codec.
 
 import (
+	"strings"
 	"bytes"
 	"encoding/json"
 	"fmt"
@@ -99,7 +100,7 @@ func registerStandardExt() {
 			panic(err)
 		}
 	}
-	for _, p := range []psatoken.IProfile{ExtLaxIDProfile{}, ExtDefaultingProfile{}} {
+	for _, p := range []psatoken.IProfile{ExtLaxIDProfile{}, ExtDefaultingProfile{}, ExtShadowProfile{}} {
 		if _, _, ok := psatoken.VerifRegistryEntry(p.GetName()); !ok {
 			if err := psatoken.RegisterProfile(p); err != nil {
 				panic(err)
@@ -531,4 +532,50 @@ func (ExtDefaultingProfile) GetClaims() psatoken.IClaims {
 		panic(err)
 	}
 	return &ExtDefaultingClaims{P2Claims: psatoken.P2Claims{Profile: &ep, SwComponents: &psatoken.SwComponents[*psatoken.SwComponent]{}, CanonicalProfile: ExtDefaultingName}}
+}
+
+// ExtShadowClaims re-declares (after the embedded base claims) the verification-service indicator under the same key
+// and member name, with its own accessors and a stricter rule: the value must be an https URL.
+type ExtShadowClaims struct {
+	psatoken.P2Claims
+	ServiceIndicator *string `cbor:"2400,keyasint,omitempty" json:"psa-verification-service-indicator,omitempty"`
+}
+
+const ExtShadowName = "http://example.com/psa/shadow"
+
+func (o *ExtShadowClaims) GetVSI() (string, error) {
+	if o.ServiceIndicator == nil {
+		return "", psatoken.ErrOptionalClaimMissing
+	}
+	if !strings.HasPrefix(*o.ServiceIndicator, "https://") {
+		return "", fmt.Errorf("%w: this profile wants an https URL", psatoken.ErrWrongSyntax)
+	}
+	return *o.ServiceIndicator, nil
+}
+func (o *ExtShadowClaims) SetVSI(v string) error {
+	if !strings.HasPrefix(v, "https://") {
+		return fmt.Errorf("%w: this profile wants an https URL", psatoken.ErrWrongSyntax)
+	}
+	o.ServiceIndicator = &v
+	return nil
+}
+func (o *ExtShadowClaims) Validate() error { return psatoken.ValidateClaims(o) }
+func (o ExtShadowClaims) MarshalCBOR() ([]byte, error) {
+	return encoding.SerializeStructToCBOR(extEM, &o)
+}
+func (o *ExtShadowClaims) UnmarshalCBOR(d []byte) error {
+	return encoding.PopulateStructFromCBOR(extDM, d, o)
+}
+func (o ExtShadowClaims) MarshalJSON() ([]byte, error)  { return encoding.SerializeStructToJSON(&o) }
+func (o *ExtShadowClaims) UnmarshalJSON(d []byte) error { return encoding.PopulateStructFromJSON(d, o) }
+
+type ExtShadowProfile struct{}
+
+func (ExtShadowProfile) GetName() string { return ExtShadowName }
+func (ExtShadowProfile) GetClaims() psatoken.IClaims {
+	ep := eat.Profile{}
+	if err := ep.Set(ExtShadowName); err != nil {
+		panic(err)
+	}
+	return &ExtShadowClaims{P2Claims: psatoken.P2Claims{Profile: &ep, SwComponents: &psatoken.SwComponents[*psatoken.SwComponent]{}, CanonicalProfile: ExtShadowName}}
 }
